@@ -61,7 +61,7 @@ def _rv(rng, lo=None):
 FEATURES = [
     "req_only", "req_multi", "req_soft", "record_only", "monitor_only", "beh_globals", "beh_args", "beh_runtime",
     "subscenario", "mesh_shape", "mesh_region", "visible", "cansee", "mutate", "relative", "params", "mode2d",
-    "req_random", "req_random",
+    "req_random", "req_random", "req_raises", "req_raises",
 ]
 RISKY = ["req_only", "req_multi", "req_soft", "record_only", "monitor_only"]
 
@@ -189,6 +189,12 @@ def gen_program(rng, force=None):
         # a requirement that itself draws from the global generators: Scenic restores them after checking
         body.append("require F.rnd() >= -1 and ego.position.x > -3.5")
         body.append("require ego.position.y < 3.5")
+    if "req_raises" in feats:
+        # one requirement consumes the global generators, another one rejects by RAISING for part of the samples:
+        # whichever order the checker evaluates them in (it depends on measured wall-clock time), the user-visible
+        # random stream must be the same afterwards
+        body.append("require F.rnd() >= -1 and ego.position.y > -3.8")
+        body.append("require F.rej_if(ego.position.x > 1.5)")
     if "record_only" in feats:
         a, b = name("c"), name("c")
         head.append(f"{a} = {rv()}")
